@@ -281,7 +281,19 @@ def check_tree(run, rng, tree, engine: str, case_id: Any, share: Optional[bool] 
             elif how == 'chunks':
                 src = random_chunks(rng, text, 10)
             elif how == 'file':
-                src = io.StringIO(text, newline='')
+                if rng.random() < 0.4:
+                    # a file object the caller has already read a first part of (a header line, an earlier document):
+                    # parsing starts where the file object stands
+                    before = rng.choice(('// header\n', '"EarlierKey" "earlier value"\n', '"Earlier"\n{\n"a" "b"\n}\n', '{\n', '"\n'))
+                    src = io.StringIO(before + text, newline='')
+                    if rng.random() < 0.5 and before.count('\n') == 1:
+                        src.readline()
+                    else:
+                        src.seek(len(before)) if rng.random() < 0.5 else src.read(len(before))
+                    run.count('deliveries_from_a_partly_read_file_object')
+                    how = 'file/partly-read'
+                else:
+                    src = io.StringIO(text, newline='')
             else:
                 # file objects as the operating system hands them out: an anonymous temporary file and a file opened
                 # from a descriptor have an int as .name, a file opened by path has the path
@@ -454,4 +466,4 @@ def replay(run, data) -> None:
 
 
 # (kept at the end of the file so that the text above stays the description the check was first built to)
-RULE += ' ' + 'Later additions: equal sub-descriptions become ONE shared object in a third of the trees; parse deliveries also through a pre-built Tokenizer with a file name (str / path object); serialise(file) into StringIO / a list-subclass collector (falsy while empty) / a real text file / an object with write() only; the reference is compared with the description the tree was built from, and renamed nodes must report the new name.'
+RULE += ' ' + 'Later additions: equal sub-descriptions become ONE shared object in a third of the trees; parse deliveries also through a pre-built Tokenizer with a file name (str / path object); serialise(file) into StringIO / a list-subclass collector (falsy while empty) / a real text file / an object with write() only; the reference is compared with the description the tree was built from, and renamed nodes must report the new name. File objects that the caller has already read a first part of (readline / read / seek): parsing starts where the file object stands.'
